@@ -2812,6 +2812,16 @@ impl<I: SignedInteger> FromBitStreamUsing for Residuals<I> {
             let partition_order = reader.read::<4, u32>()?;
             let partition_count = 1 << partition_order;
 
+            // the same validity rule the streaming decoder applies:
+            // the block divides evenly into partitions and the
+            // first one still holds at least one residual
+            if block_size < partition_count
+                || !block_size.is_multiple_of(partition_count)
+                || block_size / partition_count <= predictor_order
+            {
+                return Err(Error::InvalidPartitionOrder);
+            }
+
             (0..partition_count)
                 .map(|p| {
                     reader.parse_using(
